@@ -113,7 +113,9 @@ EXPORT int fscanf_s(FILE *restrict stream, const char *restrict fmt, ...) {
     ret = vfscanf(stream, fmt, ap);
     va_end(ap);
 
-    if (unlikely(ret < 0)) { /* always -1 EOF */
+    /* EOF with errno untouched is the end of the input, a plain status of
+       the call and not a violation: nothing to report then */
+    if (unlikely(ret < 0 && errno != 0)) {
         char errstr[128] = "fscanf_s: ";
         strcat(errstr, strerror(errno));
         invoke_safe_str_constraint_handler(errstr, NULL, errno);
